@@ -517,6 +517,39 @@ theorem run_append_inv {ε : Nat} {a b : List Op} :
     refine ⟨(op, d) :: da, db, c1, by simp [h1], h2, ?_, h4⟩
     rw [runClock_cons, if_pos hd, h3]
 
+/-- `run_cons_inv`, also saying what the list of durations is -/
+theorem run_cons_inv_eq {ε : Nat} {c c' : Clock} {durs : List (Op × Nat)} {op : Op} {ops : List Op}
+    (hmap : durs.map Prod.fst = op :: ops) (hrun : runClock ε c durs = some c') :
+    ∃ d rest, durs = (op, d) :: rest ∧ rest.map Prod.fst = ops ∧ durOk ε c op d ∧
+      runClock ε (c.step op d) rest = some c' := by
+  cases durs with
+  | nil => cases hmap
+  | cons x rest =>
+    obtain ⟨op', d⟩ := x
+    simp only [List.map_cons, List.cons.injEq] at hmap
+    obtain ⟨rfl, hrest⟩ := hmap
+    rw [runClock_cons] at hrun
+    by_cases hd : durOk ε c op' d
+    · rw [if_pos hd] at hrun; exact ⟨d, rest, rfl, hrest, hd, hrun⟩
+    · rw [if_neg hd] at hrun; cases hrun
+
+/-- `run_append_inv`, also saying how the list of durations splits -/
+theorem run_append_inv_eq {ε : Nat} {a b : List Op} :
+    ∀ {c c' : Clock} {durs : List (Op × Nat)}, durs.map Prod.fst = a ++ b →
+      runClock ε c durs = some c' →
+      ∃ da db c1, durs = da ++ db ∧ da.map Prod.fst = a ∧ db.map Prod.fst = b ∧
+        runClock ε c da = some c1 ∧ runClock ε c1 db = some c' := by
+  induction a with
+  | nil =>
+    intro c c' durs hmap hrun
+    exact ⟨[], durs, c, rfl, rfl, by simpa using hmap, rfl, hrun⟩
+  | cons op a ih =>
+    intro c c' durs hmap hrun
+    obtain ⟨d, rest, hdurs, hrest, hd, hrun'⟩ := run_cons_inv_eq (by simpa using hmap) hrun
+    obtain ⟨da, db, c1, h0, h1, h2, h3, h4⟩ := ih hrest hrun'
+    refine ⟨(op, d) :: da, db, c1, by rw [hdurs, h0]; rfl, by simp [h1], h2, ?_, h4⟩
+    rw [runClock_cons, if_pos hd, h3]
+
 /-- A-deadline, accumulated: any number of reads and writes under an armed deadline `D` ends no
     later than `D` (or at once, if started after `D`), and leaves the deadline alone -/
 theorem run_io {ε D : Nat} {ops : List Op} (hio : ∀ op ∈ ops, op.isIO = true) :
@@ -617,50 +650,60 @@ theorem mbapTrace_io (L : Nat) (txn : U16) (s : Bytes) :
 theorem rfTrace_isIO (n a : Nat) : ∀ op ∈ rfTrace n a, op.isIO = true :=
   fun op h => isIO_of_isRead (rfTrace_isRead n a op h)
 
-/-- worst-case end of an RTU exchange under the clock semantics -/
+/-- worst-case end of an RTU exchange under the clock semantics. `tW`: the clock when `Write`
+    is called, `dWr`: the time `Write` takes (A-deadline: it returns by the FIRST deadline
+    `t0 + T`). The reads run under the SECOND deadline, armed when the post-transmission sleep
+    is over: they end no later than `T` after it was armed. -/
 theorem elapsed_rtu {ε T rate L w post t0 : Nat} {dl0 : Option Nat} {s : Bytes} {e : Ending}
     {durs : List (Op × Nat)} {c' : Clock}
     (hmap : durs.map Prod.fst = rtuTrace T rate L w post s e)
     (hrun : runClock ε ⟨t0, dl0⟩ durs = some c') :
-    c'.now ≤ max (t0 + T) (t0 + (if w > 0 then w + ε else 0)) + (post + ε) +
-      (Timing.maxRTUFrameLength * Timing.t1 rate + ε + 500000) ∧
-    (rtuTail rate (Rtu.readFrame s e) = [] →
-      c'.now ≤ max (t0 + T) (t0 + (if w > 0 then w + ε else 0)) + (post + ε)) := by
+    ∃ tW dWr, (Op.write L, dWr) ∈ durs ∧ t0 + w ≤ tW ∧ tW ≤ t0 + (if w > 0 then w + ε else 0) ∧
+      tW + dWr ≤ max tW (t0 + T) ∧
+      c'.now ≤ tW + dWr + (post + ε) + T + (Timing.maxRTUFrameLength * Timing.t1 rate + ε + 500000) ∧
+      (rtuTail rate (Rtu.readFrame s e) = [] → c'.now ≤ tW + dWr + (post + ε) + T) := by
   unfold rtuTrace at hmap
-  obtain ⟨d1, dTail, c5, h1, hTail, r1, rTail⟩ := run_append_inv hmap hrun
-  obtain ⟨d2, dR, c4, h2, hR, r2, rR⟩ := run_append_inv h1 r1
-  obtain ⟨d3, dM, c2, h3, hM, r3, rM⟩ := run_append_inv h2 r2
-  obtain ⟨dA, dW, c1, hA, hW, rA, rW⟩ := run_append_inv h3 r3
+  obtain ⟨d1, dTail, c6, e1, h1, hTail, r1, rTail⟩ := run_append_inv_eq hmap hrun
+  obtain ⟨d2, dR, c5, e2, h2, hR, r2, rR⟩ := run_append_inv_eq h1 r1
+  obtain ⟨d3, dM, c2, e3, h3, hM, r3, rM⟩ := run_append_inv_eq h2 r2
+  obtain ⟨dA, dW, c1, _, hA, hW, rA, rW⟩ := run_append_inv_eq h3 r3
   -- SetDeadline(now + T)
   have hc1 := run_setDeadline hA rA
   simp only at hc1
   -- the optional pre-transmission sleep
-  have hc2 : c2.deadline = some (t0 + T) ∧ c2.now ≤ t0 + (if w > 0 then w + ε else 0) := by
+  have hc2 : c2.deadline = some (t0 + T) ∧ t0 + w ≤ c2.now ∧
+      c2.now ≤ t0 + (if w > 0 then w + ε else 0) := by
     by_cases hw : w > 0
     · rw [if_pos hw] at hW ⊢
-      obtain ⟨h1, h2, _⟩ := run_sleep hW rW
-      rw [hc1] at h1 h2
-      simp only at h2
-      exact ⟨h1, by omega⟩
+      obtain ⟨h1, h2, h2'⟩ := run_sleep hW rW
+      rw [hc1] at h1 h2 h2'
+      simp only at h2 h2'
+      exact ⟨h1, by omega, by omega⟩
     · rw [if_neg hw] at hW ⊢
       have : dW = [] := by simpa using hW
       subst this
       injection rW with rW
       rw [← rW, hc1]
-      exact ⟨rfl, Nat.le_refl _⟩
-  -- Write, then the post-transmission sleep
-  obtain ⟨dWr, dSl, c3, hWr, hSl, rWr, rSl⟩ :=
-    run_append_inv (a := [.write L]) (b := [.sleep post]) hM rM
-  obtain ⟨hc3d, hc3⟩ := run_io (D := t0 + T) (ops := [.write L])
-    (by intro op h; simp at h; subst h; rfl) hWr hc2.1 rWr
-  obtain ⟨hc4d, hc4, _⟩ := run_sleep hSl rSl
-  rw [hc3d] at hc4d
-  -- readRTUFrame
-  obtain ⟨hc5d, hc5⟩ := run_io (D := t0 + T)
-    (fun op h => isIO_of_isRead (rtuReadOps_isRead s op h)) hR hc4d rR
-  have hbase : c5.now ≤ max (t0 + T) (t0 + (if w > 0 then w + ε else 0)) + (post + ε) := by
-    have := hc2.2
-    omega
+      exact ⟨rfl, by simp only; omega, Nat.le_refl _⟩
+  -- Write, under the first deadline
+  obtain ⟨dWr, dRest, e4, hRest, hdWr, rRest⟩ :=
+    run_cons_inv_eq (op := .write L) (ops := [.sleep post, .setDeadline T]) hM rM
+  simp only [durOk, hc2.1] at hdWr
+  -- the post-transmission sleep, then SetDeadline(now + T) again
+  obtain ⟨dSl, dSd, c4, _, hSl, hSd, rSl, rSd⟩ :=
+    run_append_inv_eq (a := [.sleep post]) (b := [.setDeadline T]) hRest rRest
+  obtain ⟨_, hc4, _⟩ := run_sleep hSl rSl
+  simp only [Clock.step] at hc4
+  have hc5 := run_setDeadline hSd rSd
+  -- readRTUFrame, under the second deadline
+  obtain ⟨hc6d, hc6⟩ := run_io (D := c4.now + T)
+    (fun op h => isIO_of_isRead (rtuReadOps_isRead s op h)) hR (by rw [hc5]) rR
+  rw [hc5] at hc6
+  simp only at hc6
+  have hmem : (Op.write L, dWr) ∈ durs := by
+    rw [e1, e2, e3, e4]; simp
+  have hbase : c6.now ≤ c2.now + dWr + (post + ε) + T := by omega
+  refine ⟨c2.now, dWr, hmem, hc2.2.1, hc2.2.2, hdWr, ?_⟩
   rcases rtuTail_cases rate (Rtu.readFrame s e) with ⟨ht, _⟩ | ⟨ht, _⟩
   · rw [ht] at hTail
     have : dTail = [] := by simpa using hTail
@@ -670,22 +713,24 @@ theorem elapsed_rtu {ε T rate L w post t0 : Nat} {dl0 : Option Nat} {s : Bytes}
     exact ⟨by omega, fun _ => hbase⟩
   · rw [ht] at hTail ⊢
     unfold resyncOps at hTail
-    obtain ⟨dS, dF, c7, hS, hF, rS, rF⟩ := run_append_inv hTail rTail
-    obtain ⟨dS1, dS2, c6, hS1, hS2, rS1, rS2⟩ := run_append_inv
+    obtain ⟨dS, dF, c8, hS, hF, rS, rF⟩ := run_append_inv hTail rTail
+    obtain ⟨dS1, dS2, c7, hS1, hS2, rS1, rS2⟩ := run_append_inv
       (a := [.sleep (Timing.maxRTUFrameLength * Timing.t1 rate)]) (b := [.setDeadline 500000]) hS rS
-    obtain ⟨_, hc6, _⟩ := run_sleep hS1 rS1
-    have hc7 := run_setDeadline hS2 rS2
-    obtain ⟨_, hc'⟩ := run_io (D := c6.now + 500000) (rfTrace_isIO _ _) hF (by rw [hc7]) rF
-    rw [hc7] at hc'
+    obtain ⟨_, hc7, _⟩ := run_sleep hS1 rS1
+    have hc8 := run_setDeadline hS2 rS2
+    obtain ⟨_, hc'⟩ := run_io (D := c7.now + 500000) (rfTrace_isIO _ _) hF (by rw [hc8]) rF
+    rw [hc8] at hc'
     simp only at hc'
     refine ⟨by omega, fun h => ?_⟩
     simp [resyncOps] at h
 
-theorem rtuMargin_bound {ε T rate w post t0 : Nat} :
-    max (t0 + T) (t0 + (if w > 0 then w + ε else 0)) + (post + ε) +
-      (Timing.maxRTUFrameLength * Timing.t1 rate + ε + 500000) ≤ t0 + T + rtuMargin rate w post ε := by
+/-- the bound of `elapsed_rtu` in terms of the margin: `t0 + T + rtuMargin + dWr` -/
+theorem rtuMargin_bound {ε T rate w post t0 tW dWr : Nat}
+    (htW : tW ≤ t0 + (if w > 0 then w + ε else 0)) :
+    tW + dWr + (post + ε) + T + (Timing.maxRTUFrameLength * Timing.t1 rate + ε + 500000) ≤
+      t0 + T + rtuMargin rate w post ε + dWr := by
   unfold rtuMargin
-  split <;> omega
+  split at htW <;> rename_i hw <;> simp only [hw, if_true, if_false] <;> omega
 
 /-- the margin shrinks as the baud rate grows -/
 theorem rtuMargin_anti {r1 r2 : Nat} (h1 : 1 ≤ r1) (h : r1 ≤ r2) (w post ε : Nat) :
@@ -754,13 +799,15 @@ theorem hasEnd_iff (t : List Op) : hasEnd t = true ↔ ∃ n, Op.readEnd n ∈ t
   · rintro ⟨n, h⟩
     exact ⟨_, h, rfl⟩
 
-/-- the part of the RTU trace in front of `readRTUFrame`: sleeps and the write -/
+/-- the part of the RTU trace between the two `SetDeadline(T)`: sleeps and the write -/
 def rtuPre (L w post : Nat) : List Op :=
   (if w > 0 then [Op.sleep w] else []) ++ [.write L, .sleep post]
 
+/-- `SetDeadline(T)`, sleeps and the write, `SetDeadline(T)` again, then reads and the tail -/
 theorem rtuTrace_eq (T rate L w post : Nat) (s : Bytes) (e : Ending) :
     rtuTrace T rate L w post s e =
-      .setDeadline T :: (rtuPre L w post ++ rtuReadOps s ++ rtuTail rate (Rtu.readFrame s e)) := by
+      .setDeadline T :: (rtuPre L w post ++
+        .setDeadline T :: (rtuReadOps s ++ rtuTail rate (Rtu.readFrame s e))) := by
   simp [rtuTrace, rtuPre]
 
 theorem rtuPre_spec (L w post : Nat) :
@@ -776,30 +823,35 @@ theorem rtuTail_shape (rate : Nat) (r : (Except Err Pdu) × Bytes) :
   · exact Or.inl h
   · exact Or.inr h
 
+theorem countDeadlines_cons_setDeadline (T : Nat) (l : List Op) :
+    countDeadlines (Op.setDeadline T :: l) = 1 + countDeadlines l := by
+  unfold countDeadlines
+  rw [List.filter_cons_of_pos (by rfl), List.length_cons]; omega
+
+theorem countDeadlines_rtuTail (rate : Nat) (r : (Except Err Pdu) × Bytes) :
+    countDeadlines (rtuTail rate r) = if rtuTail rate r = [] then 0 else 1 := by
+  rcases rtuTail_shape rate r with h | h
+  · rw [h]; simp [countDeadlines]
+  · rw [h, if_neg (by simp)]
+    have := countDeadlines_reads (rfTrace_isRead 1024 r.2.length)
+    simp only [countDeadlines, List.filter_cons, Op.isSetDeadline] at this ⊢
+    simp [this]
+
+/-- exactly two deadlines per exchange, and a third one if (and only if) the exchange ends
+    with the resynchronisation flush -/
 theorem countDeadlines_rtuTrace (T rate L w post : Nat) (s : Bytes) (e : Ending) :
-    countDeadlines (rtuTrace T rate L w post s e) ≤ 2 := by
-  rw [rtuTrace_eq]
-  have h1 := (rtuPre_spec L w post).2.2
-  have h2 := countDeadlines_reads (rtuReadOps_isRead s)
-  have h3 : countDeadlines (rtuTail rate (Rtu.readFrame s e)) ≤ 1 := by
-    rcases rtuTail_shape rate (Rtu.readFrame s e) with h | h
-    · rw [h]; simp [countDeadlines]
-    · rw [h]
-      have := countDeadlines_reads (rfTrace_isRead 1024 (Rtu.readFrame s e).2.length)
-      simp only [countDeadlines, List.filter_cons, Op.isSetDeadline] at this ⊢
-      simp [this]
-  have : countDeadlines (Op.setDeadline T :: (rtuPre L w post ++ rtuReadOps s ++ rtuTail rate (Rtu.readFrame s e)))
-      = 1 + countDeadlines (rtuPre L w post ++ rtuReadOps s ++ rtuTail rate (Rtu.readFrame s e)) := by
-    unfold countDeadlines
-    rw [List.filter_cons_of_pos (by rfl), List.length_cons]; omega
-  rw [this, countDeadlines_append, countDeadlines_append]
-  omega
+    countDeadlines (rtuTrace T rate L w post s e) =
+      if rtuTail rate (Rtu.readFrame s e) = [] then 2 else 3 := by
+  rw [rtuTrace_eq, countDeadlines_cons_setDeadline, countDeadlines_append,
+    countDeadlines_cons_setDeadline, countDeadlines_append, (rtuPre_spec L w post).2.2,
+    countDeadlines_reads (rtuReadOps_isRead s), countDeadlines_rtuTail]
+  split <;> rfl
 
 theorem gotSum_rtuTrace (T rate L w post : Nat) (s : Bytes) (e : Ending) :
     gotSum (rtuTrace T rate L w post s e) =
       gotSum (rtuReadOps s ++ rtuTail rate (Rtu.readFrame s e)) := by
   rw [rtuTrace_eq]
-  simp only [gotSum, Op.got, List.append_assoc, gotSum_append, (rtuPre_spec L w post).2.1]
+  simp only [gotSum, Op.got, gotSum_append, (rtuPre_spec L w post).2.1]
   omega
 
 end Modbus.Io
